@@ -48,6 +48,14 @@ open Atomman Atomman.C09 Atomman.Gen
   every operation; dividing by a zero *value* still fails).  `big` as result → reply `err:size` (the harness does not compare such cases);
   no value → `err:value`; a value → no `big` occurred anywhere, and the request is evaluated by the proved `numAlg`,
   whose answer is the reply.
+    rpath S k1 v1 k2 v2 …      → seeded | named L M T E Q | refuse-count | refuse-seed
+                                                          which way `reset_units(seed, **kwargs)` goes (`resetPath`): S = 0/1 a seed
+                                                          other than None is given; keywords and names as cp,cp,… in call order
+    rcall S r k1 v1 …          → as rpath, for `named` followed by ` | m kg s C K` or ` | err:value`; the STATE becomes
+                                                          `resetCall` (unchanged for refusals and for `seeded`)
+    ucmodel SH U n x1…xn       → kind shape unit | values  `uc.model(array, units)` (`ucModel`): SH = `-` (0-d) or d1,d2,…;
+                                                          U = `-` (None) or cp,…; kind S (a number) / L (a list); shape `-` or d1,d2,…
+    valunit kind SH U n x1…xn  → shape | values            `uc.value_unit(term)` (`valueUnit`) for a term with these keys
     rparse lvl W tree…         → string | parse | evalAst  the MODEL's `render W lvl tree` (W: `-` or cp,cp,… blanks),
                                                           its `parse` and the tree's `evalAst` under the state scalings
                                                           (tree in prefix form: N cp,… | L cp,… | M a b | D a b | P a b)
@@ -95,6 +103,34 @@ def tree? : Nat → List String → Option (Expr × List String)
 def rAlg : Alg Rat := numAlgR (fun q => some q) ratRpow
 
 def tAlg : Alg (Rat × Q5) := trackAlgR (fun q => some q) ratRpow
+
+/-- `-` or `d1,d2,…`. -/
+def shape? (t : String) : Option (List Nat) :=
+  if t = "-" then some [] else (t.splitOn ",").mapM String.toNat?
+
+def showShape (sh : List Nat) : String := if sh.isEmpty then "-" else ",".intercalate (sh.map toString)
+
+def showOptName (o : Option (List Char)) : String :=
+  match o with
+  | some n => if n.isEmpty then "e" else showName n
+  | none => "-"
+
+/-- `k1 v1 k2 v2 …` (each cp,cp,…; `e` = the empty string). -/
+def kwargs? : List String → Option (List (String × List Char))
+  | [] => some []
+  | [_] => none
+  | k :: v :: rest =>
+    let dec (t : String) : Option (List Char) :=
+      if t = "e" then some [] else ((t.splitOn ",").mapM String.toNat?).map (·.map Char.ofNat)
+    match dec k, dec v, kwargs? rest with
+    | some k, some v, some r => some ((String.ofList k, v) :: r)
+    | _, _, _ => none
+
+def showPath : ResetPath → String
+  | .seeded => "seeded"
+  | .refuseCount => "refuse-count"
+  | .refuseSeed => "refuse-seed"
+  | .named ch => "named " ++ " ".intercalate ([ch.length, ch.mass, ch.time, ch.energy, ch.charge].map showOptName)
 
 /-- guarded values: an exact rational of moderate size, an approximation (a non-integer power that is not rational
     occurred below), "too big to write down", or "an inexact value was used as an exponent". -/
@@ -356,6 +392,44 @@ def step (sc : Scales Rat) (toks : List String) : Scales Rat × String :=
       if isBig (parse gvAlg envG str) then (sc, err "size")
       else (sc, showName str ++ " | " ++ showO (parse rAlg env str) ++ " | " ++ showO (evalAst rAlg env e))
     | _, _, _ => (sc, err "format")
+  | "rpath" :: sg :: rest =>
+    match kwargs? rest with
+    | some kw => (sc, showPath (resetPath ⟨sg = "1", kw⟩))
+    | none => (sc, err "format")
+  | "rcall" :: sg :: r :: rest =>
+    match kwargs? rest, parseRat? r with
+    | some kw, some r =>
+      let a : ResetArgs := ⟨sg = "1", kw⟩
+      let p := resetPath a
+      let tail := match p with
+        | .named ch =>
+          match resetScales (envSI (K := Rat) unitTable) ch r with
+          | some s => " | " ++ showRats [s.m, s.kg, s.s, s.c, s.k]
+          | none => " | " ++ err "value"
+        | _ => ""
+      (resetCall unitTable sc a sc r, showPath p ++ tail)
+    | _, _ => (sc, err "format")
+  | "ucmodel" :: sh :: u :: rest =>
+    match shape? sh, optName? u, splitCount rest with
+    | some sh, some u, some (xs, []) =>
+      (sc, guarded (parseUnits gvAlg envG u) fun _ =>
+        match ucModel rAlg env ⟨sh, xs⟩ u with
+        | some t => (if t.scalar then "S " else "L ") ++ (match t.shape with | some s => showShape s | none => "-")
+                      ++ " " ++ showOptName t.unit ++ " | " ++ showRats t.vals
+        | none => err "value")
+    | _, _, _ => (sc, err "format")
+  | "valunit" :: kind :: sh :: u :: rest =>
+    match optName? u, splitCount rest with
+    | some u, some (xs, []) =>
+      let shp : Option (Option (List Nat)) := if sh = "-" then some none else (shape? sh).map some
+      match shp with
+      | some shp =>
+        (sc, guarded (parseUnits gvAlg envG u) fun _ =>
+          match valueUnit rAlg env ⟨kind = "S", xs, shp, u⟩ with
+          | some a => showShape a.shape ++ " | " ++ showRats a.vals
+          | none => err "value")
+      | none => (sc, err "format")
+    | _, _ => (sc, err "format")
   | ["halfnames"] => (sc, " ".intercalate (halfIntegralNames.map showName))
   | _ => (sc, err "op")
 
